@@ -380,6 +380,19 @@ Definition lazy_bind_k (k : kind) := match k with BFS => lazy_bind | DFS => lazy
 
 Definition mfuel : nat := N.to_nat 100000.
 
+(* force_ans_compound: the term children of a compound, looking through typed fields that are not
+   terms themselves (Option<..>, encoded as a compound with the reserved tag [opt_tag]) *)
+Definition opt_tag : nat := 0.
+Fixpoint flat_children (ts : terms) : list term :=
+  match ts with
+  | TNil => []
+  | TMore t r =>
+      (match t with
+       | TComp g cs' => if Nat.eqb g opt_tag then flat_children cs' else [t]
+       | _ => [t]
+       end) ++ flat_children r
+  end.
+
 (* the harness's sq goal reads its first operand without the substitution: the number itself, or the
    first number found going down the heads of lists and the first fields of compounds *)
 Fixpoint first_number (t : term) : option Z :=
@@ -533,7 +546,7 @@ Fixpoint start (n : nat) (g : cgoal) (st : state) {struct n} : stream :=
             fold_left (fun acc z => mplus (sres_stream (state_unify st (tnum z) xw)) (LDelay acc))
                       (fd_iter_rev d) SEmpty
         | TCons h tl, _ => start n' (from_array BFS [CForceAns h; CForceAns tl]) st
-        | TComp _ cs, _ => start n' (from_array BFS (map CForceAns (terms_to_list cs))) st
+        | TComp _ cs, _ => start n' (from_array BFS (map CForceAns (flat_children cs))) st
         | _, _ => SUnit st
         end
     | CEnforceFd =>
